@@ -68,7 +68,10 @@ impl Generator {
         // every iteration emits TUPLE2/TUPLE3 and so shrinks the stack: the loop terminates
         while self.state.stack.len() > 1 {
             let stack_len = self.state.stack.len();
-            if stack_len >= 3 {
+            if self.state.version < Version::V2 {
+                // TUPLE2/TUPLE3 are protocol-2 opcodes: protocols 0 and 1 drop the surplus items
+                self.emit_opcode(Pop);
+            } else if stack_len >= 3 {
                 self.emit_opcode(Tuple3);
             } else if stack_len == 2 {
                 self.emit_opcode(Tuple2);
